@@ -44,6 +44,27 @@ def run(chk):
         if r.get("status") != "ok" or a != "ok %d %s" % (r["count"], toks_of_lines(r["code"]["lines"])):
             chk.tie_broken("optimize: model and code disagree", {"input": [show_line(l) for l in v],
                            "real": [show_line(l) for l in r.get("code", {}).get("lines", [])], "model": a[:1500]})
+    # ---- knowledge probes: LDr op ; <instructions> ; LDr op ; observer — tie AND execution of the really optimised vector ----
+    for it in range(chk.scale(2500, 60000)):
+        v = gasm.probe_vector(rng)
+        t = toks_of_lines(v)
+        r = h.req("opt " + t); a = m.req("opt " + t)
+        chk.case(key=t, nontrivial=r.get("count", 0) > 0)
+        chk.count("probe_vectors")
+        mismatch = r.get("status") != "ok" or a != "ok %d %s" % (r["count"], toks_of_lines(r["code"]["lines"]))
+        if r.get("status") == "ok" and (r["count"] > 0 or mismatch):
+            before = gasm.run_vector(m, "c02v", v, it)
+            after = gasm.run_vector(m, "c02v", r["code"]["lines"], it)
+            chk.count("probe_executions")
+            if before and after:
+                for b, c in zip(before, after):
+                    if b is not None and b != c:
+                        chk.fail("optimize-changes-vector-behaviour", "optimize() changes what a line vector computes (memory / X / Y at RTS)",
+                                 {"input": [show_line(l) for l in v], "optimized": [show_line(l) for l in r["code"]["lines"]], "before": b, "after": c})
+                        break
+        if mismatch:
+            chk.tie_broken("optimize: model and code disagree on a knowledge probe", {"input": [show_line(l) for l in v],
+                           "real": [show_line(l) for l in r.get("code", {}).get("lines", [])], "model": a[:1500]})
     # ---- programs ----
     corpus = chk.corpus()
     sources = corpus + prog.repo_test_inputs()
